@@ -12,6 +12,7 @@ CONSTANTS
   FixShort = FALSE
   FixNilReq = FALSE
   FixBadReq = FALSE
+  FixBadKey = FALSE
 VIEW view
 INVARIANTS TypeOK OwnIndexOnly Correct
 CHECK_DEADLOCK FALSE
